@@ -69,6 +69,11 @@ def cases(tier, variants):
                             boxes=("box", "lo")):
         for ji in range(4):
             yield dict(c, part="cvx", jac=ji, step=0, shift=1e6)
+    # box sides far narrower than the finite-difference step (variables ~1e-9): only the
+    # no-exception / in-the-box / nfev clauses apply, like for the 0.3 step letter
+    for c in F.convex_cases(2, variants, (3,), fams=("qp",), hesses=("rot2",)):
+        for ji in range(3):
+            yield dict(c, part="cvx", jac=ji, step=0, narrow=1e-9)
     # the package's own convex benchmark functions in a box with active bounds, every
     # mode against the run with the packaged exact gradient
     for v in variants:
@@ -163,7 +168,7 @@ def run(case):
             viol.append(V("objective_value_differs_from_exact_gradient_solution", f_fd=ff,
                           f_exact=fe, threshold=1e-6 * (1.0 + abs(fe)), msg_fd=str(res.message),
                           msg_exact=str(ex.message)))
-    if case["part"] == "cvx" and step != 0.3:
+    if case["part"] == "cvx" and step != 0.3 and not case.get("narrow"):
         ex = minimize_lbfgsb(x0=p.x0.copy(), fun=p.f, jac=p.g, **kw)
         fe, ff = float(p.f(np.asarray(ex.x, float))), float(p.f(x))
         h = {None: 1e-8, "2-point": 1.5e-8, "3-point": 6.1e-6, "cs": 1.5e-8}[jac] \
